@@ -79,6 +79,7 @@ def seeded():
     before.update(_read_eval(f"{V}/seeded/ROUND3_eval_before_strengthening.txt"))
     before.update(_read_eval(f"{V}/seeded/ROUND4_eval_before_strengthening.txt"))
     before.update(_read_eval(f"{V}/seeded/ROUND5_eval_before_strengthening.txt"))
+    before.update(_read_eval(f"{V}/seeded/ROUND6_eval_before_strengthening.txt"))
     now = _read_eval(f"{V}/seeded/EVAL_current.txt")
     out = ["| change | what it does (author's words, first line) | check at the time it was seeded | check now (rules that fire) |", "|---|---|---|---|"]
     nb = nn = n = 0
